@@ -16,6 +16,9 @@ def same_objects(a, b):
 
 
 class C18(Oracle):
+    # reach probes that must not be stuck at zero (else the workload is not reaching what
+    # the design says it reaches): the check then exits 2
+    required_probes = {"quick": ['lookup_multi_record_identifier', 'bare_lookup_hit'], "thorough": ['lookup_multi_record_identifier', 'bare_lookup_hit']}
     prop = "C18"
 
     def swarm(self, rng):
